@@ -1,6 +1,6 @@
 (* C12 — Receive Maximum flow control.  Statements only; proofs in Conn/IdsQuota.v.
    Nothing else may be added to this file. *)
-From MQ Require Import Base.Prelude Conn.Types Conn.ConnRecord Conn.Step Corr.ConnTrace Conn.IdsQuota.
+From MQ Require Import Base.Prelude Conn.Types Conn.ConnRecord Conn.Step Corr.ConnTrace Conn.IdsQuota Conn.Run Conn.Own Conn.OwnStep Conn.Witness.
 
 (* the reported vacancy is M minus the count, saturating at zero: it never wraps or panics, for every
    M and every count *)
@@ -36,8 +36,29 @@ Print Assumptions C12_refuse_publish_is_quiet.
 (* C12_partial: the invariant "publish_send_count = number of incomplete outbound QoS>0 exchanges of
    this connection, including retransmitted stored ones" over all histories is checked by the monitor
    mon_c12 (ghost multiset of open exchanges built from operations and events) against the
-   implementation's counter and vacancy, and by the projection correspondence; it is not yet a
-   theorem.  Known finding F-12b (known_findings.json) is the one reproducible exception. *)
+   implementation's counter and vacancy, and by the projection correspondence.  As a statement about ALL
+   histories it is FALSE of the faithful model — and of the code: the three theorems below are its refutation,
+   each a history of a fresh object inside the application contract of the ownership theorems after which the
+   vacancy is the full Receive Maximum while an accepted, stored QoS>0 PUBLISH of this connection is still awaited
+   with its identifier in use.  They are the known findings F-12d, F-12b, F-12c (known_findings.json; the same
+   histories fail on the implementation, corpus/C12.cases); outside these classes the monitor reports a violation. *)
+Theorem C12_count_exact_refuted_erase_before_resume :
+  own_history_ok w12d_g (conn_new w12d_g V50) w12d_ops /\
+  exists c, run_state w12d_g (conn_new w12d_g V50) w12d_ops = Some c /\ full_vacancy_with_open_exchange c 2.
+Proof. exact (conj w12d_in_contract w12d_refutes). Qed.
+Print Assumptions C12_count_exact_refuted_erase_before_resume.
+
+Theorem C12_count_exact_refuted_late_pubrel :
+  own_history_ok w12b_g (conn_new w12b_g V50) w12b_ops /\
+  exists c, run_state w12b_g (conn_new w12b_g V50) w12b_ops = Some c /\ full_vacancy_with_open_exchange c 2.
+Proof. exact (conj w12b_in_contract w12b_refutes). Qed.
+Print Assumptions C12_count_exact_refuted_late_pubrel.
+
+Theorem C12_count_exact_refuted_persistent_midway :
+  own_history_ok w12c_g (conn_new w12c_g V50) w12c_ops /\
+  exists c, run_state w12c_g (conn_new w12c_g V50) w12c_ops = Some c /\ full_vacancy_with_open_exchange c 2.
+Proof. exact (conj w12c_in_contract w12c_refutes). Qed.
+Print Assumptions C12_count_exact_refuted_persistent_midway.
 
 Example C12_nonvacuous :
   let g := mkCfg RServer 65535 2 in
